@@ -86,6 +86,16 @@ func (c *ctx) connEvents(id int) []world.Ev {
 	return out
 }
 
+// drainSeq is the history position at which the run's drain phase began.
+func (c *ctx) drainSeq() int {
+	for _, e := range c.r.Events {
+		if e.Kind == "drain" {
+			return e.Seq
+		}
+	}
+	return 1 << 30
+}
+
 func (c *ctx) has(kind string) bool {
 	for _, e := range c.r.Events {
 		if e.Kind == kind {
